@@ -16,7 +16,7 @@ Report(kind, t, clauses, at) == PrintT("@@" \o ToJson([kind |-> kind, tid |-> t,
 
 SegFail(r, s) ==
     LET k == KeyIdx(ScoreKey(r.g, r.e, r.esaa))
-        lenient == r.age > 0 /\ k # 0 /\ ~HasFactor(r.e)     \* scored event without an age factor: not specified
+        lenient == k # 0 /\ NoFactorRegion(r.e, r.age)     \* scored event without an age factor, masters age: not specified
     IN IF lenient THEN (IF s[3] = -100 THEN {"raised_instead_of_score"} ELSE {})
        ELSE (IF ~(Covered(r.g, r.e, s[1], r.age, r.esaa) /\ Covered(r.g, r.e, s[2], r.age, r.esaa)) \/
                 (Score(r.g, r.e, s[1], r.age, r.esaa) = s[3] /\ Score(r.g, r.e, s[2], r.age, r.esaa) = s[3])
@@ -29,12 +29,33 @@ MonoFail(r) ==
        ELSE IF \A i \in 1..(Len(S) - 1) : (S[i][3] >= 0 /\ S[i + 1][3] >= 0) =>
                    (IF KindOf[k] = "track" THEN S[i][3] >= S[i + 1][3] ELSE S[i][3] <= S[i + 1][3])
             THEN {} ELSE {"better_mark_scores_fewer_points"}
+\* Second pass (r.re = <<mark, value, index of the first-pass run holding the mark>>, asked after the whole first pass and
+\* in the opposite order): the relation "a better mark never scores fewer" also holds between a re-asked mark and the
+\* first-pass values of its neighbours - the run it lies in (equal, if it has a better and a worse neighbour there) and
+\* the next better / next worse runs.
+RevFail(r) ==
+    LET k == KeyIdx(ScoreKey(r.g, r.e, r.esaa))
+        S == r.segs
+    IN IF k = 0 \/ "re" \notin DOMAIN r THEN {}
+       ELSE LET track == KindOf[k] = "track"
+                Ok(x) == LET c == x[1]  v == x[2]  j == x[3]
+                             worseIn == IF track THEN S[j][2] > c ELSE S[j][1] < c     \* the run holds a worse mark
+                             betterIn == IF track THEN S[j][1] < c ELSE S[j][2] > c
+                             jw == IF track THEN j + 1 ELSE j - 1                      \* next worse run
+                             jb == IF track THEN j - 1 ELSE j + 1
+                         IN \/ v < 0
+                            \/ /\ (worseIn /\ S[j][3] >= 0) => v >= S[j][3]
+                               /\ (betterIn /\ S[j][3] >= 0) => v <= S[j][3]
+                               /\ (jw \in DOMAIN S /\ S[jw][3] >= 0) => v >= S[jw][3]
+                               /\ (jb \in DOMAIN S /\ S[jb][3] >= 0) => v <= S[jb][3]
+            IN IF \A i \in DOMAIN r.re : Ok(r.re[i]) THEN {} ELSE {"better_mark_scores_fewer_points"}
+ReIndexOK(r) == "re" \notin DOMAIN r \/ \A i \in DOMAIN r.re : LET x == r.re[i] IN x[3] \in DOMAIN r.segs /\ r.segs[x[3]][1] <= x[1] /\ x[1] <= r.segs[x[3]][2]
 Viol(r) ==
     CASE r.k = "seg" -> LET bad == {i \in DOMAIN r.segs : SegFail(r, r.segs[i]) # {}} IN
-                        <<UNION {SegFail(r, r.segs[i]) : i \in bad} \cup MonoFail(r),
+                        <<UNION {SegFail(r, r.segs[i]) : i \in bad} \cup MonoFail(r) \cup RevFail(r),
                           IF bad = {} THEN <<>> ELSE r.segs[CHOOSE i \in bad : \A j \in bad : i <= j]>>
       [] r.k = "age" -> LET bad == {a \in DOMAIN r.vals : Covered(r.g, r.e, r.c, a, r.esaa) /\ Score(r.g, r.e, r.c, a, r.esaa) # r.vals[a]
-                                       /\ ~(KeyIdx(ScoreKey(r.g, r.e, r.esaa)) # 0 /\ ~HasFactor(r.e) /\ r.vals[a] # -100)} IN
+                                       /\ ~(KeyIdx(ScoreKey(r.g, r.e, r.esaa)) # 0 /\ NoFactorRegion(r.e, a) /\ r.vals[a] # -100)} IN
                         <<IF bad = {} THEN {} ELSE {"age_handling_differs"},
                           IF bad = {} THEN <<>> ELSE <<CHOOSE a \in bad : \A j \in bad : a <= j>>>>
       [] r.k = "unk" -> <<IF r.val = -1 THEN {} ELSE {"unknown_pair_not_none"}, <<>>>>
@@ -44,7 +65,7 @@ Viol(r) ==
                                                  THEN {"negative_target_differs_from_zero_target"} ELSE {})
                             ELSE IF r.none THEN {} ELSE {"unknown_pair_not_none"}), <<>>>>
 \* model drift for the inverse: distance of the returned mark from the exact threshold (diagnostic)
-Drift(r) == IF r.k = "need" /\ r.known /\ r.ongrid /\ r.t <= Len(Thr[KeyIdx(r.g \o "-" \o r.e)])
+Drift(r) == IF r.k = "seg" /\ ~ReIndexOK(r) THEN {"harness_run_index"} ELSE IF r.k = "need" /\ r.known /\ r.ongrid /\ r.t <= Len(Thr[KeyIdx(r.g \o "-" \o r.e)])
                /\ r.perf # Needed(KeyIdx(r.g \o "-" \o r.e), r.t) THEN {"model_needed_mark"} ELSE {}
 Check(t) == LET r == Trace[t]
                 v == Viol(r)
